@@ -13,13 +13,13 @@ from .common import CT, DT, LX, PB, PL, ckey
 
 P = "C02"
 EXPLANATION = (
-    "Static rules D2.1-D2.8 (DESIGN.md section 5, C02): the request message is assembled once (build_message extends the message "
+    "Static rules D2.1-D2.9 (DESIGN.md section 5, C02): the request message is assembled once (build_message extends the message "
     "list only under the _msg_setup guard; who-may-write the guard flag over the whole package, with a positive control); "
     "read-modify-write size/OR/AND fields cut to one width, initial masks, set_bit operators and field order; write-tag and "
     "fragmented write-tag message layouts against the Logix data-access specification; fragment emission as an exact tiling "
     "with a contiguous running offset and a fresh packet per fragment; fixed-capacity string encoders bound their payload to the "
     "capacity; BOOL-array alignment and value-count guards dominate the encoding; one read-modify-write packet per tag with the "
-    "results fanned out to every merged request; structure member/bit addressing agrees between encode and decode. Decides "
+    "results fanned out to every merged request; structure member/bit addressing agrees between encode and decode; bit numbers of read-modify-write requests are confined to the mask width (finite orderings per mask size). Decides "
     "the structural conditions of 'exactly the addressed bytes, exactly once'; the controller's memory is outside."
 )
 ASSUMPTIONS = ["packet objects are only manipulated by pycomm3 code (no external writes to _msg_setup)"]
